@@ -72,6 +72,11 @@ CHECKS = {
         text="TLA+ model of the wounds the validator emits for one file (per-block verdicts in wound mode, wound aggregation, size-mismatch wound, flush at close) model-checked for every (signed, actual) over two symbols with 2-unit blocks: coverage of every differing offset below the signed length, length mismatch and any deviation reported, well-formed ranges, no false wound. The same kind of pairs at unit scale (1 unit = 32 KiB) goes through the real Validate with a wounds file and in fail-fast mode: TLC decides on the real wounds and compares them with the model's (drift); generated builds with damage sequences (flips at block edges, weak-hash twins, truncation incl. at block boundaries, extension within/across/beyond blocks, emptied, deleted, content where an empty file is expected, kind swaps, retargeted symlinks, combinations, damage only in the last file) are validated the same way with ground truth by comparison with the signed build.",
         note="ground truth by byte comparison in the harness; hash collisions other than crafted weak-hash twins not modelled; subtree-hiding kind swaps belong to C06.",
         technique="TLA+ model checking (TLC) + trace validation of real validator runs against the TLA+ wound model and property"),
+    "C09": dict(
+        level="model_checking", ref="DESIGN.md §4 C09",
+        text="TLA+ model of the safekeeper's validate-then-read reader (per-block verdict cache, comparison of the signed block size, end-of-file handling) with its two consumers (copy until EOF, block-range copy through a limit reader), model-checked for every (signed, actual) of one old file: result = error or output = expected, undamaged => accepted. The same cases at unit scale go through the real safekeeper along the real consumers' code paths (TLC decides on the real outcome and compares it with the model's); (patch, damage) pairs - plain and optimized patches of generated build pairs, old build flipped / truncated (also at block boundaries, to nothing) / extended (inside the last block, past it) / files deleted / empty files filled / weak-hash twins - are applied with the fresh bowl through the safekeeper: either an error or exactly the new build, and an undamaged old build is accepted.",
+        note="scope: fresh bowl; SHA-256 digests stand for byte equality; hash collisions other than crafted weak-hash twins not modelled.",
+        technique="TLA+ model checking (TLC) + trace validation of real safekeeper reads and applications against the TLA+ reader model and property"),
 }
 
 NOT_YET = "check not built yet in this round (planned: DESIGN.md §4); not a claim that the technique cannot apply"
